@@ -9,6 +9,9 @@ import Enc.Lemmas.ThriftStructEnd
 import Enc.Lemmas.ThriftDepthExact
 import Enc.Lemmas.ThriftAlloc
 import Enc.Lemmas.ThriftUnionDec
+import Enc.Lemmas.ThriftUnionTotal
+import Enc.Lemmas.ThriftUnionWitness
+import Enc.Lemmas.ThriftUnionEmbed
 /-!
 # C08 — thrift decoding is total, bounded and skips unknown fields
 Property theorems only.
@@ -333,17 +336,162 @@ end Alloc
 /-! ## the model with unions (Enc/Model/ThriftUnion.lean) — what the driver runs for `thrift.decode`
 
 On types without a union field `decodeU` / `unmarshalU` ARE `decode` / `unmarshal`, for every input, protocol, strictness,
-depth counter and fuel: every theorem of this file speaks about the model the driver runs. For union types the decoder is
-corresponded by the harness (truncations at every offset, mutations, several members, mismatching members: `thriftUnionSweep`
-/ `thriftUnionMulti` in harness/thriftunion.go); totality and the truncation theorem are not yet proved for them. -/
+depth counter and fuel (`decodeU_eq_decode`): every theorem above speaks about the model the driver runs. For types WITH
+union fields — nested anywhere: in lists, maps, sets, behind pointers, as members of other unions — totality, boundedness,
+truncation and the trailing-bytes report are proved directly on `decodeU` / `decodeStructU` (proofs in
+`Enc/Lemmas/ThriftUnionTotalPre.lean`, `ThriftUnionTotal.lean`: the `ThriftTotal*` architecture ported; the union branch
+only adds "reset the struct on every accepted member, remember the last member", which changes the values handed to the
+next loop iteration, not what is read). The support predicate `SupportedU` (weaker than `Supported`:
+`supportedU_of_supported`) asks for supported Go kinds only where `decodeFuncStructOf` builds a decoder — at the fields that
+carry a thrift id; the union interface field itself (type `any`) and untagged fields are exempt. -/
 theorem decodeU_eq_decode (p : Proto) (strict : Bool) (d fuel : Nat) (ty : Ty) (b : Bytes) (cur : Val)
     (h : noUnion ty = true) : decodeU p strict d fuel ty b cur = decode p strict d fuel ty b cur :=
   Lemmas.ThriftUnion.decodeU_eq_decode p strict d fuel ty b cur h
 
-open Lemmas.ThriftTotal in
-theorem unmarshalU_total (p : Proto) (strict : Bool) (ty : Ty) (b : Bytes) (e : String) (h : Supported ty = true)
-    (hnu : noUnion ty = true) : unmarshalU p strict ty b ≠ .panic e := by
-  rw [Lemmas.ThriftUnion.unmarshalU_eq_unmarshal p strict ty b hnu]
-  exact Lemmas.ThriftTotal.unmarshal_total p strict ty b e h
+open Lemmas.ThriftUnionTotal in
+/-- **MAIN (totality, unions included).** Every protocol setting, every target type without an unsupported Go kind at a
+field that is decoded — union structs anywhere inside — and EVERY byte string: `Unmarshal` returns a value or an error,
+never a panic. (Earlier version: hypotheses `Supported ty` — false for every union, whose interface field has type `any` —
+and `noUnion ty`.) With EMBEDDED structs the Go code used to panic on a union: see the repaired finding at the end. -/
+theorem unmarshalU_total (p : Proto) (strict : Bool) (ty : Ty) (b : Bytes) (e : String) (h : SupportedU ty = true) :
+    unmarshalU p strict ty b ≠ .panic e :=
+  Lemmas.ThriftUnionTotal.unmarshalU_total p strict ty b e h
+
+open Lemmas.ThriftTotal Lemmas.ThriftUnionTotal in
+/-- the earlier hypothesis implies the new one -/
+theorem supportedU_of_supported (ty : Ty) (h : Supported ty = true) : SupportedU ty = true :=
+  Lemmas.ThriftUnionTotal.supportedU_of_supported ty h
+
+/-- no input drives the union decoder into unbounded descent: `Unmarshal`'s budget always suffices -/
+theorem unmarshalU_ne_fuel (p : Proto) (strict : Bool) (ty : Ty) (b : Bytes) : unmarshalU p strict ty b ≠ .err "fuel" :=
+  Lemmas.ThriftUnionTotal.unmarshalU_ne_fuel p strict ty b
+
+/-- **MAIN (truncation, unions included).** Whatever input `Unmarshal` accepts, every proper prefix of it is rejected:
+plain EOF for the empty prefix, unexpected EOF for every other one — a cut right after a complete union member (the struct
+has been reset, `lastField` is set, the stop byte is missing) included: never a half-built union, never another class. -/
+theorem unmarshalU_trunc (p : Proto) (strict : Bool) (ty : Ty) (b : Bytes) (v : Val)
+    (h : unmarshalU p strict ty b = .ok v) (k : Nat) (hk : k < b.length) :
+    unmarshalU p strict ty (b.take k) = .err (if k = 0 then "eof" else "unexpectedEof") :=
+  Lemmas.ThriftUnionTotal.unmarshalU_trunc_strict p strict ty b v h k hk
+
+/-- trailing bytes after a complete value are reported -/
+theorem unmarshalU_append_trailing (p : Proto) (strict : Bool) (ty : Ty) (b extra : Bytes) (v : Val)
+    (h : unmarshalU p strict ty b = .ok v) (hx : extra ≠ []) :
+    unmarshalU p strict ty (b ++ extra) = .err "trailing" :=
+  Lemmas.ThriftUnionTotal.unmarshalU_append_trailing p strict ty b extra v h hx
+
+/-- the struct loop of a union, any position: a cut inside the consumed part is an EOF-class error -/
+theorem decodeStructU_trunc (p : Proto) (strict : Bool) (d fuel : Nat) (descs : List FieldDesc) (zero : Option Vals)
+    (vs : Vals) (last : Int) (num : Nat) (seen : List Int) (lastF : Option Nat) (b r : Bytes) (o : StructOut)
+    (h : decodeStructU p strict d fuel descs zero b vs last num seen lastF = .ok (o, r)) (k : Nat)
+    (hk : k < b.length - r.length) :
+    decodeStructU p strict d fuel descs zero (b.take k) vs last num seen lastF =
+      .err (if k = 0 ∧ num = 0 then "eof" else "unexpectedEof") :=
+  Lemmas.ThriftUnionTotal.decodeStructU_trunc h k hk
+
+open Lemmas.ThriftPrim Lemmas.ThriftSkip Lemmas.ThriftUnion Lemmas.ThriftRoundTrip in
+/-- **truncation of what `Marshal` writes for a union** (hypotheses of C04 `union_round_trip`: exactly one member emitted —
+zero-valued or not — of the proved universe): the bytes are not empty, every proper prefix is rejected with the exact EOF
+class, and the bytes followed by anything are rejected as `"trailing"`. The hypotheses are discharged on the witness union
+`Witness.V` by the `#guard`s of `Lemmas/ThriftUnionWitness.lean`; `Lemmas/ThriftUnionTotal.lean` `#guard`s every prefix. -/
+theorem union_marshal_trunc (p : Proto) (strict : Bool) (fs : Fields) (vs : Vals) (u k : Nat) (tag : String)
+    (t : Ty) (x : Val) (id : Int) (rq en : Bool)
+    (hu : unionPos fs 0 = some u)
+    (hq : othersQuiet (zeroMember fs vs) k fs vs 0 = true)
+    (hk : fieldAt fs vs k = some (tag, t, x))
+    (he : emittedU (zeroMember fs vs) k tag t x = some (id, en))
+    (hid : 1 ≤ id ∧ id ≤ 32767) (hreal : isReal (typeOf t) = true)
+    (hfind : findById (fieldDescs fs) id = some { pos := k, id := id, required := rq, enum := en, ty := t })
+    (hreq : ∀ fd ∈ fieldDescs fs, fd.required = true → fd.id = id)
+    (hty : tyAt fs k = some t)
+    (hnu : noUnion t = true) (hx : RTS t x = true) (hen : enumTyOK en t = true)
+    (hd : 1 + nest t ≤ Gen.c_thrift_maxDepth) :
+    ∃ bytes, marshalU p (.struct fs) (.struct vs) = .ok bytes ∧ 0 < bytes.length ∧
+      (∀ j, j < bytes.length →
+        unmarshalU p strict (.struct fs) (bytes.take j) = .err (if j = 0 then "eof" else "unexpectedEof")) ∧
+      (∀ extra, extra ≠ [] → unmarshalU p strict (.struct fs) (bytes ++ extra) = .err "trailing") :=
+  Lemmas.ThriftUnionTotal.union_marshal_trunc p strict fs vs u k tag t x id rq en hu hq hk he hid hreal hfind hreq hty hnu
+    hx hen hd
+
+open Lemmas.ThriftSkip in
+/-- non-vacuity: a union type (`Witness.V`: bool 1, string 3, the union interface field, int64 9; abstract tags) is
+`SupportedU` (it is not `Supported`: the interface field has type `any`); that `Unmarshal` accepts members of it is checked by
+the `#guard`s of `Lemmas/ThriftUnionWitness.lean` -/
+example (ta tc tf tb : String) (ha : parseTag ta = some (1, false, false)) (hc : parseTag tc = some (3, false, false))
+    (hf : parseTag tf = none) (hb : parseTag tb = some (9, false, false)) :
+    Lemmas.ThriftUnionTotal.SupportedU (.struct (.cons "A" ta false .bool (.cons "C" tc false .str
+      (.cons "F" tf false .any (.cons "B" tb false (.int .i64) .nil))))) = true := by
+  simp [Lemmas.ThriftUnionTotal.SupportedU, Lemmas.ThriftUnionTotal.SupportedUF, ha, hc, hf, hb, IntKind.signed]
+
+/-! ## REPAIRED FINDING (fix 62e5e1f): a union whose interface field is promoted from an embedded POINTER struct
+(model of the combination: Enc/Model/ThriftUnionEmbed.lean, `decodeUE` = the index-path decoder of Model/ThriftEmbed.lean +
+the union steps of Model/ThriftUnion.lean, as written; corresponded with the Go code by the GENERATED cases
+`thrift.uembdecode` at the end of the C08 runner — four shapes, three protocols, strict or not, every prefix of valid
+inputs, with the Go-side oracle "the outcome is the one of the flat union": no panic, F points at the member decoded last).
+
+Go: `type M struct{A int32 "1"; B string "2"}; type U struct{F any ",union"}; type T struct{M; *U}`; before the fix
+`thrift.Unmarshal(compact, []byte{0x15, 0x0a, 0x00}, &T{})` (member A = 5) PANICKED with "reflect: indirection through nil
+pointer to embedded struct": `structDecoder.decode` resets the struct on the accepted member (`v.Set(dec.zero)`: the embedded
+`*U` is nil), the walk to the member allocates only what is on the MEMBER's path, and the closing
+`v.FieldByIndex(dec.union).Set(lastField.Addr())` did not allocate (an earlier version of this file proved
+`union_behind_nil_embedded_pointer_panics`: a panic for every input delivering a member). Now the path to the union field
+is walked like the members' paths (allocating; "cannot set embedded field of unexported type" when it cannot), and: -/
+
+open Lemmas.ThriftUnionEmbed in
+/-- **union field behind a nil embedded pointer ⇒ the pointer is allocated and the union field designates the member, every
+input.** The union field's index path is `j :: k :: rest` (promoted from the embedded field at top-level position `j`), no
+member's path starts with `j`, the zero value of the struct holds a nil pointer at `j`. For every input, protocol, strictness,
+depth, fuel, target: when the struct loop accepts a member (the last one at index path `m`), no required field is missing and
+the walk is not blocked by an unexported embedded type, position `j` IS nil after the loop (the situation that used to
+panic), and the result is the loop's struct with a fresh struct allocated at `j` whose union field holds the address of
+member `m`. -/
+theorem union_behind_nil_embedded_pointer_decodes (p : Proto) (strict : Bool) (d fuel : Nat) (fs : Fields) (j k : Nat)
+    (rest : List Nat) (hup : unionPathE fs = some (j :: k :: rest)) (hj : AwayFrom (fieldDescsE fs) j)
+    (hZ : Vals.get (zeroFields fs) j = .nil) (b : Bytes) (vs : Vals)
+    (vs' : Vals) (seen : List Int) (m : List Nat) (r : Bytes)
+    (hloop : decodeStructUE p strict (d + 1) fs (fieldDescsE fs) (some (zeroFields fs)) fuel b vs 0 0 [] none
+        = .ok ((vs', seen, some m), r))
+    (hreq : (fieldDescsE fs).any (fun fd => fd.required && !seen.contains fd.id) = false)
+    (hdeep : tooDeep d = false) (hblk : blocked fs vs' (j :: k :: rest) = false) :
+    Vals.get vs' j = .nil ∧
+    decodeUE p strict d (fuel + 1) (.struct fs) b (.struct vs) =
+      .ok (.struct (Vals.set vs' j (.ptr (.struct
+        (setPathA (structOf (tyAtF fs j)) (zeroFields (structOf (tyAtF fs j))) (k :: rest) (pathRef m))))), r) :=
+  Lemmas.ThriftUnionEmbed.union_behind_nil_embedded_pointer_decodes p strict d fuel fs j k rest hup hj hZ b vs vs' seen m r
+    hloop hreq hdeep hblk
+
+open Lemmas.ThriftUnionEmbed in
+/-- **totality with embedded structs and a union**: every input, protocol, strictness, depth, fuel, target — never a panic
+(`SupportedE`: supported Go kinds at the promoted members of the outer struct) -/
+theorem decodeUE_total (p : Proto) (strict : Bool) (d fuel : Nat) (ty : Ty) (b : Bytes) (cur : Val) (e : String)
+    (h : SupportedE ty = true) : decodeUE p strict d fuel ty b cur ≠ .panic e :=
+  Lemmas.ThriftUnionEmbed.decodeUE_total p strict d fuel ty b cur h e
+
+open Lemmas.ThriftUnionEmbed in
+theorem unmarshalUE_total (p : Proto) (strict : Bool) (ty : Ty) (b : Bytes) (e : String) (h : SupportedE ty = true) :
+    unmarshalUE p strict ty b ≠ .panic e :=
+  Lemmas.ThriftUnionEmbed.unmarshalUE_total p strict ty b e h
+
+open Lemmas.ThriftUnionEmbed in
+/-- non-vacuity: the shape `struct{M; *U}` above satisfies the hypotheses of both theorems (names and tags abstract; the
+concrete strings, and `unmarshalUE .compact _ T [0x15, 0x0a, 0x00] = ok {M{5, ""}, &U{F → A}}` — also binary protocol, also
+"last of two members wins" — are `#guard`ed in Lemmas/ThriftUnionEmbed.lean) -/
+example (nM nU nA nB nF te ta tb tf : String)
+    (hM : isExported nM = true) (hU : isExported nU = true) (hA : isExported nA = true) (hB : isExported nB = true)
+    (hF : isExported nF = true)
+    (hta : tagOf ta = some (1, false, false)) (htb : tagOf tb = some (2, false, false)) (htf : tagOf tf = none)
+    (hua : isUnionTag ta = false) (hub : isUnionTag tb = false) (huf : isUnionTag tf = true) :
+    (unionPathE (outerPtrOf nM nU nA nB nF te ta tb tf) = some [1, 0] ∧
+     AwayFrom (fieldDescsE (outerPtrOf nM nU nA nB nF te ta tb tf)) 1 ∧
+     Vals.get (zeroFields (outerPtrOf nM nU nA nB nF te ta tb tf)) 1 = .nil) ∧
+    SupportedE (.struct (outerPtrOf nM nU nA nB nF te ta tb tf)) = true :=
+  ⟨outerPtr_hyps nM nU nA nB nF te ta tb tf hM hU hA hB hF hta htb htf hua hub huf,
+   outerPtr_supported nM nU nA nB nF te ta tb tf hM hU hA hB hF hta htb htf⟩
+
+/- NOTE (outside the universe of every model here; generated cases `thrift.uembdecode … stringer …`, oracle only): the union
+   field may have a NON-EMPTY interface type (`struct{A int32 "1"; F fmt.Stringer ",union"}`; struct.go checks
+   `Kind() == reflect.Interface` only). Before fix 62e5e1f the closing `Set` panicked ("reflect.Set: value of type *int32 is
+   not assignable to type fmt.Stringer") as soon as a member arrived; now `Unmarshal` returns an error ("cannot set union
+   field of type … to a value of type …"). The universe has the empty interface `any` only: always assignable. -/
 
 end Enc.Props.C08
